@@ -242,13 +242,21 @@ Theorem C14_undo_event_replays : forall k e loc m st args st' outs,
   bounds_ordered (kind_key k) (p_min e) (p_max e) -> map_in_range e ->
   conf e k args -> stored_stable e k st ->
   step k e loc m st args = Some (st', outs) ->
-  stored_stable e k st' /  forall l a b, In (Reply (mk undo_path [As l; a; b])) outs ->
-    l = loc /\ (exists old new, a = event_arg k old /\ b = event_arg k new) /    in_spec k [a] = true /\ in_spec k [b] = true /    (exists st1 o1, step k e loc m st' [a] = Some (st1, o1) /\ values k st1 = values k st) /    (exists st2 o2, step k e loc m st [b] = Some (st2, o2) /\ values k st2 = values k st') /    (exists st3 o3, step k e loc m st' [b] = Some (st3, o3) /\ values k st3 = values k st').
+  stored_stable e k st' /\
+  forall l a b, In (Reply (mk undo_path [As l; a; b])) outs ->
+    l = loc /\ (exists old new, a = event_arg k old /\ b = event_arg k new) /\
+    in_spec k [a] = true /\ in_spec k [b] = true /\
+    (exists st1 o1, step k e loc m st' [a] = Some (st1, o1) /\ values k st1 = values k st) /\
+    (exists st2 o2, step k e loc m st [b] = Some (st2, o2) /\ values k st2 = values k st') /\
+    (exists st3 o3, step k e loc m st' [b] = Some (st3, o3) /\ values k st3 = values k st').
 Proof. exact step_event_replays. Qed.
 
 Theorem C14_undo_event_replays_nonvacuous :
-  undo_kind KAI /\ env_ok env_arr KAI /\ bounds_ordered (kind_key KAI) (p_min env_arr) (p_max env_arr) /  map_in_range env_arr /\ conf env_arr KAI [Ai 50] /\ stored_stable env_arr KAI [1; 2; 3] /  step KAI env_arr [47; 110; 49] [110; 49] [1; 2; 3] [Ai 50] =
-    Some ([1; 9; 3], [Reply (mk undo_path [As [47; 110; 49]; Ai 2; Ai 9]); Bcast (mk [47; 110; 49] [Ai 9])]) /  step KAI env_arr [47; 110; 49] [110; 49] [1; 9; 3] [Ai 2] =
+  undo_kind KAI /\ env_ok env_arr KAI /\ bounds_ordered (kind_key KAI) (p_min env_arr) (p_max env_arr) /\
+  map_in_range env_arr /\ conf env_arr KAI [Ai 50] /\ stored_stable env_arr KAI [1; 2; 3] /\
+  step KAI env_arr [47; 110; 49] [110; 49] [1; 2; 3] [Ai 50] =
+    Some ([1; 9; 3], [Reply (mk undo_path [As [47; 110; 49]; Ai 2; Ai 9]); Bcast (mk [47; 110; 49] [Ai 9])]) /\
+  step KAI env_arr [47; 110; 49] [110; 49] [1; 9; 3] [Ai 2] =
     Some ([1; 2; 3], [Reply (mk undo_path [As [47; 110; 49]; Ai 9; Ai 2]); Bcast (mk [47; 110; 49] [Ai 2])]).
 Proof. exact replays_nonvacuous. Qed.
 
@@ -280,7 +288,8 @@ Proof. exact counted_as_option. Qed.
    to setcode, the broadcast the value getcode returns afterwards *)
 Theorem C14_coption_needs_storing_setter :
   exists (get : Z -> Z) (set : Z -> Z -> Z) e loc s s' o,
-    rCOptionCb_ get set e loc s [Ai 7] = Some (s', o) /\ get s' = 3 /    undo_events o = [Reply (mk undo_path [As loc; Ai 0; Ai 7])].
+    rCOptionCb_ get set e loc s [Ai 7] = Some (s', o) /\ get s' = 3 /\
+    undo_events o = [Reply (mk undo_path [As loc; Ai 0; Ai 7])].
 Proof. exact coption_needs_storing_setter. Qed.
 
 (* rArrayTCbMember(name, member): the toggle contract of rArrayT on the member
@@ -291,6 +300,8 @@ Theorem C14_member_toggle : forall e ds rest arr cur loc a t,
   let i := Z.to_nat (2 * digits_val ds + 1) in
   nth_error arr i = Some cur -> arg_T a = Some t ->
   rArrayTCbMember e loc (array_address e ds rest) arr [a] =
-    Some (upd arr i t, if cur =? t then [] else [Bcast (mk loc [a])]) /  frame arr (upd arr i t) i t /  rArrayTCbMember e loc (array_address e ds rest) arr [] =
+    Some (upd arr i t, if cur =? t then [] else [Bcast (mk loc [a])]) /\
+  frame arr (upd arr i t) i t /\
+  rArrayTCbMember e loc (array_address e ds rest) arr [] =
     Some (arr, [Reply (mk loc [if cur =? 0 then AFalse else ATrue])]).
 Proof. exact member_toggle. Qed.
